@@ -438,3 +438,51 @@ def c10(ev, tier, seed):
     ev.exhaustive = False
     ev.assumptions = ["futures' Mutex is modelled as a plain lock (who is woken when is not part of the property); a task waiting for the lock is polled again once the lock was released",
                       "single-writer record well-formedness under every cut is additionally covered by the HW_write path of Conn.tla (C07)"]
+
+
+@check("C13")
+def c13(ev, tier, seed):
+    ev.rule = ("MC_Runner (call-atomic): limits 1..3, 4 (thorough 5) request futures created on the runner and on a clone alternately; "
+               "all histories of create / poll / drop-pending-request / drop-token with the dependency semantics of async-lock 3.4 and "
+               "event-listener 5.3 (listen, non-additional notify(1), propagation when a notified listener is dropped, barging). "
+               "Invariants TokenBound, NoStrandedSlot, QueueSane, action property ImmediateWhenFree. Every transition is replayed on "
+               "the real Runner/Token with counting wakers (poll results, wake-ups, live tokens). Thread interleavings inside the "
+               "dependencies cannot be steered from outside: a seeded multi-thread stress run (acquire / cancel / release on runner "
+               "and clones, independent live-token counter, every waiter must finish) complements the model.")
+    nf = 5 if tier == "thorough" else 4
+    for limit in (1, 2, 3):
+        cfg = ("SPECIFICATION Spec\nCONSTANTS\n  MaxConns = %d\n  NF = %d\nVIEW View\nACTION_CONSTRAINT Emit\n"
+               "INVARIANTS TokenBound NoStrandedSlot QueueSane\nPROPERTIES ImmediateWhenFree\nCHECK_DEADLOCK FALSE\n" % (limit, nf))
+        stats, h = cl.run_tlc_piped("C13-runner-%d" % limit, "MC_Runner", cfg, ["runner-replay", "--prop", "C13", "--which", "runner"], workers=4)
+        ev.add_tlc("MC_Runner MaxConns=%d NF=%d" % (limit, nf), stats)
+        ev.add_harness("histories replayed on Runner/Token (limit %d)" % limit, h)
+    hs = cl.run_harness("C13-stress", ["runner-stress", "--seed", str(seed), "--rounds", "300" if tier == "thorough" else "60"])
+    ev.add_harness("multi-thread stress (supplementary, not model-based)", hs, as_traces=False)
+    ev.exhaustive = False
+    ev.assumptions = ["the semaphore and event-listener crates behave as transcribed in DESIGN.md appendix D (read from the vendored sources); "
+                      "their internal thread-safety is exercised only by the stress run"]
+
+
+@check("C14")
+def c14(ev, tier, seed):
+    ev.rule = ("(a) MC_WaitGroup (instruction-atomic): 0..3 live tokens, shutdown, up to 3 polls of the shutdown future, each poll split "
+               "into upgrade / register / drop-temporary, token drops interleaved at every point; invariants ShutdownNotEarly, "
+               "ShutdownWoken, liveness Completes under fairness. Every interleaving is forced onto the real code through the "
+               "scheduling-point hook (drops run inside WaitGroupFuture::poll). (b) MC_Conn with a shutdown request at every suspension "
+               "(start, spurious Pending in every phase, idle connection): NoHandlerAfterStop, in-flight request completes with its "
+               "EndRequest, idle connection returns without reading; behaviours replayed on Token::run with Runner::shutdown.")
+    for n in (0, 1, 2, 3):
+        cfg = ("SPECIFICATION Spec\nCONSTANTS\n  NTok = %d\n  MaxPolls = 3\nACTION_CONSTRAINT Emit\nINVARIANTS ShutdownNotEarly ShutdownWoken\n"
+               "CHECK_DEADLOCK FALSE\n" % n)
+        stats, h = cl.run_tlc_piped("C14-wg-%d" % n, "MC_WaitGroup", cfg, ["runner-replay", "--prop", "C14", "--which", "waitgroup"], workers=2)
+        ev.add_tlc("MC_WaitGroup NTok=%d" % n, stats)
+        ev.add_harness("interleavings forced through the hook (%d tokens)" % n, h)
+    # liveness (unbounded polling, histories not recorded): the future completes under fairness
+    live = ("SPECIFICATION LiveSpec\nCONSTANTS\n  NTok = 3\n  MaxPolls = 0\nINVARIANTS ShutdownNotEarly ShutdownWoken\nPROPERTY Completes\nCHECK_DEADLOCK FALSE\n")
+    stats, h = cl.run_tlc_piped("C14-wg-live", "MC_WaitGroup", live, ["runner-replay", "--prop", "C14", "--which", "waitgroup"], workers=1)
+    ev.add_tlc("MC_WaitGroup liveness (Completes under weak fairness)", stats)
+    conn_model(ev, "C14", seed, "stops-b24", 24, ["basic"], spurious=True, stops=True, maxcuts=1, maxpend=1)
+    if tier == "thorough":
+        conn_model(ev, "C14", seed, "stops-b32", 32, ["basic", "query"], spurious=True, stops=True, maxcuts=1, maxpend=2)
+    ev.exhaustive = False
+    ev.assumptions = CONN_ASSUME + ["Arc/Weak and AtomicWaker behave as documented (upgrade fails iff no strong reference; wake takes the registered waker)"]
